@@ -216,3 +216,22 @@ Theorem C04_process_acquire_is_source : forall net cached target prompt,
 Proof. exact process_acquire_is_source. Qed.
 
 Print Assumptions C04_process_acquire_is_source.
+
+(* determineCurrentPriv AS THE SOURCE HAS IT ON THIS RUN (translated with its range loop and its
+   `continue`): for every list of per-level test outcomes (excluded by not-contains, pattern
+   matches), in whatever order the map is iterated, it reports exactly the levels that are not
+   excluded and whose pattern matches, in iteration order, and returns the error exactly when there
+   is none; [C04_determine_current_selected]: the model's determine_current is that selection. *)
+From Scrapli Require Import DecideLoops NetworkSrc.
+Theorem C04_determine_current_priv_is_source : forall fl,
+  dcp_run fl = Some (selected fl 0, match selected fl 0 with [] => false | _ => true end).
+Proof. exact determine_current_priv_is_source. Qed.
+
+Theorem C04_determine_current_selected : forall net prompt,
+  determine_current net prompt
+  = map (fun i => match nth_error (n_level_order net (n_levels net)) i with Some kl => lv_name (snd kl) | None => [] end)
+        (selected (flags_of net prompt) 0).
+Proof. exact determine_current_selected. Qed.
+
+Print Assumptions C04_determine_current_priv_is_source.
+Print Assumptions C04_determine_current_selected.
